@@ -52,14 +52,18 @@ type transportBase struct {
 	linkService LinkService
 	running     atomic.Bool
 
-	faceID         uint64
-	remoteURI      *defn.URI
-	localURI       *defn.URI
-	scope          defn.Scope
-	persistency    Persistency
-	linkType       defn.LinkType
-	mtu            int
-	expirationTime *time.Time
+	faceID      uint64
+	remoteURI   *defn.URI
+	localURI    *defn.URI
+	scope       defn.Scope
+	persistency Persistency
+	linkType    defn.LinkType
+	mtu         int
+
+	// expirationTime is refreshed by the face's send and receive goroutines on every frame
+	// and read by the face table's expiration handler and by management: atomic
+	// (nil for a transport that never expires).
+	expirationTime atomic.Pointer[time.Time]
 
 	// Counters
 	nInBytes  uint64
@@ -130,10 +134,16 @@ func (t *transportBase) SetMTU(mtu int) {
 // ExpirationPeriod returns the time until this face expires.
 // If transport not on-demand, returns 0.
 func (t *transportBase) ExpirationPeriod() time.Duration {
-	if t.expirationTime == nil || t.persistency != PersistencyOnDemand {
+	expirationTime := t.expirationTime.Load()
+	if expirationTime == nil || t.persistency != PersistencyOnDemand {
 		return 0
 	}
-	return time.Until(*t.expirationTime)
+	return time.Until(*expirationTime)
+}
+
+// setExpirationTime sets the time at which an on-demand face expires.
+func (t *transportBase) setExpirationTime(expirationTime time.Time) {
+	t.expirationTime.Store(&expirationTime)
 }
 
 func (t *transportBase) FaceID() uint64 {
